@@ -58,10 +58,11 @@ def matches_known(pid, v, known):
         if m is None:
             return f
         try:
-            if eval(m, {"__builtins__": {"len": len, "any": any, "all": all, "max": max, "min": min, "set": set,
-                                         "str": str, "int": int, "float": float, "abs": abs, "sum": sum,
-                                         "isinstance": isinstance, "list": list, "dict": dict, "sorted": sorted}},
-                    {"v": v, "input": v.get("input"), "what": v.get("what", "")}):
+            env = {"__builtins__": {"len": len, "any": any, "all": all, "max": max, "min": min, "set": set,
+                                    "str": str, "int": int, "float": float, "abs": abs, "sum": sum,
+                                    "isinstance": isinstance, "list": list, "dict": dict, "sorted": sorted},
+                   "v": v, "input": v.get("input"), "what": v.get("what", "")}
+            if eval(m, env):
                 return f
         except Exception:
             continue
@@ -108,6 +109,13 @@ def run_property(pid, mod, tier, replay):
         if replay:
             mod.replay(ctx, json.load(open(replay)))
         elif ok:
+            # listed findings are replayed first from their stored minimal inputs: a finding that no longer
+            # fails simply produces no KNOWN-FINDING line
+            fc = getattr(mod, "finding_case", None)
+            if fc:
+                for f in load_known().get("findings", []):
+                    if f.get("property") == pid and f.get("minimal_input") is not None:
+                        fc(ctx, f["minimal_input"])
             mod.run(ctx)
         # ------------------------------------------------------------ failing-input search
         if (ctx.disagreements or ctx.broken_obligations) and not ctx.violations:
